@@ -4,7 +4,9 @@ package main
 // function-typed values. Every use is recorded in the evidence as an assumption.
 
 import (
+	"go/constant"
 	"go/types"
+	"strings"
 	"math/big"
 
 	"golang.org/x/tools/go/ssa"
@@ -57,6 +59,12 @@ func init() {
 				e = Store(e, th.AAdd(p, th.AddrLit(int64(i))), by)
 			}
 			t.cur.Assign(mem, e)
+			if !th.bv {
+				// recomposition lemma (trivial in bit-vectors: concat of extracts): reading the
+				// bytes back little-endian gives the value; hard for linear integer arithmetic
+				t.cur.Assume(Eq(f.leLoad(mem, p, n), v.e))
+				t.assumptions["lemma: little-endian byte decomposition/recomposition of an n-byte value is the identity (Int reading of a bit-vector fact)"] = true
+			}
 			return nil
 		}
 	}
@@ -165,4 +173,306 @@ func poolGet(f *frame, c *ssa.CallCommon, args []sval) []sval {
 	}
 	fail("sync.Pool.Get on unknown pool %s", name)
 	return nil
+}
+
+// ---------------------------------------------------------------------
+// Error values. An error is an Int id: 0 is nil; package-level error variables of the
+// standard library are fixed small constants; lz4errors constants are interned strings
+// (>= 1000); errors built at run time are fresh ids with errInner recording what %w wraps.
+
+var knownErrorGlobals = map[string]int64{
+	"io.EOF":              901,
+	"io.ErrUnexpectedEOF": 902,
+	"io.ErrShortWrite":    903,
+	"io.ErrShortBuffer":   904,
+	"io.ErrNoProgress":    905,
+	"io.ErrClosedPipe":    906,
+}
+
+// ghost state of io.Reader / io.Writer values (keyed by the interface value id)
+func (t *fnTrans) ghost(name string, elem Sort) *Cell {
+	return t.global("H_$"+name, ArrayOf(t.th.Addr(), elem))
+}
+func (t *fnTrans) rdPos() *Cell  { return t.ghost("rdPos", SInt) }
+func (t *fnTrans) rdLen() *Cell  { return t.ghost("rdLen", SInt) }
+func (t *fnTrans) rdErr() *Cell  { return t.ghost("rdErr", SInt) }
+func (t *fnTrans) rdData() *Cell { return t.ghost("rdData", ArrayOf(SInt, SInt)) }
+func (t *fnTrans) wrLen() *Cell  { return t.ghost("wrLen", SInt) }
+func (t *fnTrans) wrData() *Cell { return t.ghost("wrData", ArrayOf(SInt, SInt)) }
+func (t *fnTrans) wrFail() *Cell { return t.ghost("wrFail", SInt) } // 0: healthy, else the error it reported
+
+func (t *fnTrans) newError(inner Expr) Expr {
+	r := t.havocTemp("err", SInt, nil)
+	t.cur.Assume(And(IGt(r, IntLit(1<<20)), ILt(r, IntLit(1<<40)), Eq(mk("errInner", SInt, r), inner)))
+	return r
+}
+
+func errorT() types.Type { return types.Universe.Lookup("error").Type() }
+
+func init() {
+	intT := types.Typ[types.Int]
+	// io.ReadFull(r, buf): a reader is a fixed byte sequence of length rdLen followed by
+	// a terminal error rdErr (io.EOF for a clean end). Fragmentation is abstracted away:
+	// the library reaches its source only through ReadFull / CopyN.
+	trustedCalls["io.ReadFull"] = func(f *frame, c *ssa.CallCommon, args []sval) []sval {
+		t := f.t
+		th := t.th
+		if th.bv {
+			fail("io.ReadFull in bv theory")
+		}
+		r, buf := args[0].e, args[1].e
+		f.check(Not(Eq(r, IntLit(0))), "nil-reader")
+		mem := t.mem(types.Typ[types.Uint8])
+		pos := t.newTemp("rpos", Select(t.rdPos(), r))
+		total := Select(t.rdLen(), r)
+		t.cur.Assume(And(ILe(IntLit(0), pos), ILe(pos, total), Not(Eq(Select(t.rdErr(), r), IntLit(0)))))
+		avail := t.newTemp("avail", ISub(total, pos))
+		want := th.SLen(buf)
+		n := t.newTemp("rn", Ite(ILe(want, avail), want, avail))
+		bp := t.newTemp("rbuf", th.SPtr(buf))
+		t.checkWrite(mem, bp, IAdd(bp, n), "io.ReadFull")
+		t.checkModField(t.rdPos(), r)
+		data := Select(t.rdData(), r)
+		t.memUpdate(mem, bp, IAdd(bp, n), func(old, a Expr) Expr {
+			return Select(data, IAdd(pos, ISub(a, bp)))
+		})
+		t.cur.Assign(t.rdPos(), Store(t.rdPos(), r, IAdd(pos, n)))
+		eof := IntLit(knownErrorGlobals["io.EOF"])
+		uneof := IntLit(knownErrorGlobals["io.ErrUnexpectedEOF"])
+		terr := Select(t.rdErr(), r)
+		err := t.newTemp("rerr", Ite(ILe(want, avail), IntLit(0),
+			Ite(Eq(avail, IntLit(0)), terr, Ite(Eq(terr, eof), uneof, terr))))
+		return []sval{{e: n, typ: intT}, {e: err, typ: errorT()}}
+	}
+	trustedCalls["io.CopyN"] = func(f *frame, c *ssa.CallCommon, args []sval) []sval {
+		t := f.t
+		if t.th.bv {
+			fail("io.CopyN in bv theory")
+		}
+		// only CopyN(ioutil.Discard, src, n) occurs: the destination accepts everything
+		if g, ok := c.Args[0].(*ssa.UnOp); !ok || !strings.Contains(g.X.String(), "Discard") {
+			fail("io.CopyN to a destination other than ioutil.Discard")
+		}
+		r, n := args[1].e, args[2].e
+		f.check(Not(Eq(r, IntLit(0))), "nil-reader")
+		pos := t.newTemp("rpos", Select(t.rdPos(), r))
+		total := Select(t.rdLen(), r)
+		t.cur.Assume(And(ILe(IntLit(0), pos), ILe(pos, total), Not(Eq(Select(t.rdErr(), r), IntLit(0)))))
+		avail := t.newTemp("avail", ISub(total, pos))
+		got := t.newTemp("cn", Ite(ILe(n, IntLit(0)), IntLit(0), Ite(ILe(n, avail), n, avail)))
+		t.checkModField(t.rdPos(), r)
+		t.cur.Assign(t.rdPos(), Store(t.rdPos(), r, IAdd(pos, got)))
+		err := t.newTemp("cerr", Ite(Or(ILe(n, IntLit(0)), ILe(n, avail)), IntLit(0), Select(t.rdErr(), r)))
+		return []sval{{e: got, typ: types.Typ[types.Int64]}, {e: err, typ: errorT()}}
+	}
+	// io.Writer.Write(p): appends all of p and returns (len(p), nil), or appends a strict
+	// prefix and returns a non-nil error. Any call may fail.
+	invokeContracts["io.Writer.Write"] = func(f *frame, c *ssa.CallCommon, args []sval) []sval {
+		t := f.t
+		th := t.th
+		w, p := args[0].e, args[1].e
+		f.check(Not(Eq(w, IntLit(0))), "nil-writer")
+		mem := t.mem(types.Typ[types.Uint8])
+		plen := th.SLen(p)
+		pp := t.newTemp("wp", th.SPtr(p))
+		ok := t.havocTemp("wok", SBool, nil)
+		n := t.havocTemp("wn", SInt, intT)
+		t.cur.Assume(And(ILe(IntLit(0), n), ILe(n, plen), Implies(ok, Eq(n, plen))))
+		werr := t.newError(IntLit(0))
+		t.cur.Assume(Not(Eq(werr, IntLit(knownErrorGlobals["io.EOF"]))))
+		err := t.newTemp("werr", Ite(ok, IntLit(0), werr))
+		olen := t.newTemp("olen", Select(t.wrLen(), w))
+		t.cur.Assume(ILe(IntLit(0), olen))
+		t.checkModField(t.wrLen(), w)
+		oldData := t.newTemp("odata", Select(t.wrData(), w))
+		nd := t.havocTemp("ndata", ArrayOf(SInt, SInt), nil)
+		k := &Var{"k!w", SInt}
+		in := And(ILe(olen, k), ILt(k, IAdd(olen, n)))
+		t.cur.Assume(&Quant{Forall: true, Vars: []*Var{k}, Body: Eq(Select(nd, k), Ite(in, Select(mem, IAdd(pp, ISub(k, olen))), Select(oldData, k))), Pats: [][]Expr{{Select(nd, k)}}})
+		t.cur.Assign(t.wrData(), Store(t.wrData(), w, nd))
+		t.cur.Assign(t.wrLen(), Store(t.wrLen(), w, IAdd(olen, n)))
+		t.cur.Assign(t.wrFail(), Store(t.wrFail(), w, Ite(ok, Select(t.wrFail(), w), err)))
+		return []sval{{e: n, typ: intT}, {e: err, typ: errorT()}}
+	}
+	invokeContracts["io.ReadCloser.Close"] = func(f *frame, c *ssa.CallCommon, args []sval) []sval {
+		t := f.t
+		e := t.havocTemp("closeerr", SInt, errorT())
+		return []sval{{e: e, typ: errorT()}}
+	}
+	invokeContracts["error.Error"] = func(f *frame, c *ssa.CallCommon, args []sval) []sval {
+		t := f.t
+		f.check(Not(Eq(args[0].e, IntLit(0))), "nil-error")
+		return []sval{{e: t.havocTemp("errstr", t.th.Addr(), nil), typ: types.Typ[types.String]}}
+	}
+	trustedCalls["errors.Is"] = func(f *frame, c *ssa.CallCommon, args []sval) []sval {
+		return []sval{{e: mk("errIs", SBool, args[0].e, args[1].e), typ: types.Typ[types.Bool]}}
+	}
+	trustedCalls["errors.New"] = func(f *frame, c *ssa.CallCommon, args []sval) []sval {
+		return []sval{{e: f.t.newError(IntLit(0)), typ: errorT()}}
+	}
+	trustedCalls["fmt.Sprintf"] = func(f *frame, c *ssa.CallCommon, args []sval) []sval {
+		t := f.t
+		return []sval{{e: t.havocTemp("str", t.th.Addr(), nil), typ: types.Typ[types.String]}}
+	}
+	trustedCalls["fmt.Errorf"] = func(f *frame, c *ssa.CallCommon, args []sval) []sval {
+		t := f.t
+		th := t.th
+		// which operand does %w wrap?
+		var inner Expr = IntLit(0)
+		if k, ok := c.Args[0].(*ssa.Const); ok && k.Value != nil && k.Value.Kind() == constant.String {
+			format := constant.StringVal(k.Value)
+			idx := -1
+			verb := 0
+			for i := 0; i < len(format); i++ {
+				if format[i] != '%' {
+					continue
+				}
+				if i+1 < len(format) && format[i+1] == '%' {
+					i++
+					continue
+				}
+				j := i + 1
+				for j < len(format) && strings.ContainsRune("+-# 0123456789.", rune(format[j])) {
+					j++
+				}
+				if j < len(format) && format[j] == 'w' {
+					idx = verb
+				}
+				verb++
+				i = j
+			}
+			if idx >= 0 {
+				ifaceT := types.NewInterfaceType(nil, nil)
+				mem := t.mem(ifaceT)
+				inner = t.newTemp("wrapped", Select(mem, th.AAdd(th.SPtr(args[1].e), th.AddrLit(int64(idx)))))
+			}
+		} else {
+			fail("fmt.Errorf with a non-constant format")
+		}
+		return []sval{{e: t.newError(inner), typ: errorT()}}
+	}
+	trustedCalls["(reflect.Type).String"] = nil
+	delete(trustedCalls, "(reflect.Type).String")
+	trustedCalls["bytes.NewReader"] = func(f *frame, c *ssa.CallCommon, args []sval) []sval {
+		t := f.t
+		th := t.th
+		// a fresh reader over the bytes of the argument, ending in a clean io.EOF
+		o := t.newTemp("brd", t.objTop())
+		t.cur.Assign(t.objTop(), th.AAdd(t.objTop(), th.AddrLit(1)))
+		t.cur.Assume(th.ALt(t.objTop(), th.AddrLit(1<<16)))
+		mem := t.mem(types.Typ[types.Uint8])
+		b := args[0].e
+		data := t.havocTemp("brdata", ArrayOf(SInt, SInt), nil)
+		k := &Var{"k!b", SInt}
+		t.cur.Assume(&Quant{Forall: true, Vars: []*Var{k}, Body: Implies(And(ILe(IntLit(0), k), ILt(k, th.SLen(b))), Eq(Select(data, k), Select(mem, IAdd(th.SPtr(b), k)))), Pats: [][]Expr{{Select(data, k)}}})
+		t.cur.Assign(t.rdData(), Store(t.rdData(), o, data))
+		t.cur.Assign(t.rdLen(), Store(t.rdLen(), o, th.SLen(b)))
+		t.cur.Assign(t.rdPos(), Store(t.rdPos(), o, IntLit(0)))
+		t.cur.Assign(t.rdErr(), Store(t.rdErr(), o, IntLit(knownErrorGlobals["io.EOF"])))
+		return []sval{{e: o, typ: c.Signature().Results().At(0).Type()}}
+	}
+}
+
+func init() {
+	noop := func(f *frame, c *ssa.CallCommon, args []sval) []sval { return nil }
+	// sequential code only: lock operations have no effect on the modelled state
+	trustedCalls["(*sync.Mutex).Lock"] = noop
+	trustedCalls["(*sync.Mutex).Unlock"] = noop
+}
+
+// ---------------------------------------------------------------------
+// function-typed values
+
+func init() {
+	// on-block-done callbacks: user code; assumed not to touch the library's state
+	dynamicContracts["func(int)"] = func(f *frame, c *ssa.CallCommon, args []sval) []sval {
+		f.check(Not(Eq(args[0].e, f.t.th.AddrLit(0))), "nil-func")
+		return nil
+	}
+	// Option values: function-type contract "applied to a *Writer / *Reader / *CompressingReader it
+	// changes only option fields, never the lifecycle state, buffers, sink or source" (each of
+	// the constructors' closures in options.go is verified against it, see their contracts).
+	dynamicContracts["lz4.Option"] = func(f *frame, c *ssa.CallCommon, args []sval) []sval {
+		t := f.t
+		th := t.th
+		f.check(Not(Eq(args[0].e, th.AddrLit(0))), "nil-func")
+		mi, ok := c.Args[0].(*ssa.MakeInterface)
+		if !ok {
+			fail("Option applied to a non-literal applier")
+		}
+		recv := f.val(mi.X).e
+		n, st := namedStruct(mi.X.Type())
+		if n == nil {
+			fail("Option applied to %s", mi.X.Type())
+		}
+		havocField := func(obj Expr, sn *types.Named, name string, constrain func(old, nv Expr) Expr) {
+			sst := sn.Underlying().(*types.Struct)
+			for i := 0; i < sst.NumFields(); i++ {
+				if sst.Field(i).Name() != name {
+					continue
+				}
+				h := t.heap(sn, i)
+				t.checkModField(h, obj)
+				old := t.newTemp("optold", Select(h, obj))
+				_, es := h.S.ArrayParts()
+				nv := t.havocTemp("opt", es, sst.Field(i).Type())
+				if constrain != nil {
+					t.cur.Assume(constrain(old, nv))
+				}
+				t.cur.Assign(h, Store(h, obj, nv))
+				return
+			}
+		}
+		frameFlags := func(framePtr Expr) {
+			// *lz4stream.Frame: Descriptor.Flags (checksum/size flags and a valid block size code), Descriptor.ContentSize
+			fr := t.eng.findPackage("lz4stream").Scope().Lookup("Frame").Type().(*types.Named)
+			fst := fr.Underlying().(*types.Struct)
+			for i := 0; i < fst.NumFields(); i++ {
+				if fst.Field(i).Name() == "Descriptor" {
+					dn := fst.Field(i).Type().(*types.Named)
+					d := t.embObj(framePtr, fr, i)
+					havocField(d, dn, "Flags", func(old, nv Expr) Expr {
+						keep := func(x Expr) Expr { // bits other than 2,3,4 and 12..14
+							lo := mk("mod", SInt, x, IntLit(4))
+							mid := mk("mod", SInt, mk("div", SInt, x, IntLit(32)), IntLit(128))
+							hi := mk("div", SInt, x, IntLit(32768))
+							return IAdd(IAdd(lo, IMul(mid, IntLit(32))), IMul(hi, IntLit(32768)))
+						}
+						idx := mk("mod", SInt, mk("div", SInt, nv, IntLit(4096)), IntLit(8))
+						oidx := mk("mod", SInt, mk("div", SInt, old, IntLit(4096)), IntLit(8))
+						return And(Eq(keep(old), keep(nv)), Or(Eq(idx, oidx), And(ILe(IntLit(4), idx), ILe(idx, IntLit(7)))))
+					})
+					havocField(d, dn, "ContentSize", nil)
+				}
+			}
+		}
+		nonNil := func(old, nv Expr) Expr { return Not(Eq(nv, th.AddrLit(0))) }
+		switch n.Obj().Name() {
+		case "Writer":
+			havocField(recv, n, "level", nil)
+			havocField(recv, n, "num", func(old, nv Expr) Expr { return IGt(nv, IntLit(0)) })
+			havocField(recv, n, "handler", nonNil)
+			havocField(recv, n, "legacy", nil)
+			for i := 0; i < st.NumFields(); i++ {
+				if st.Field(i).Name() == "frame" {
+					frameFlags(Select(t.heap(n, i), recv))
+				}
+			}
+		case "Reader":
+			havocField(recv, n, "num", func(old, nv Expr) Expr { return IGt(nv, IntLit(0)) })
+			havocField(recv, n, "handler", nonNil)
+		case "CompressingReader":
+			havocField(recv, n, "level", nil)
+			havocField(recv, n, "handler", nonNil)
+			for i := 0; i < st.NumFields(); i++ {
+				if st.Field(i).Name() == "frame" {
+					frameFlags(Select(t.heap(n, i), recv))
+				}
+			}
+		default:
+			fail("Option applied to %s", n.Obj().Name())
+		}
+		e := t.havocTemp("opterr", th.Addr(), errorT())
+		return []sval{{e: e, typ: errorT()}}
+	}
 }
